@@ -11,5 +11,6 @@ if ! go build -o bin/vcheck ./cmd/vcheck 2>bin/build.log; then
 fi
 case "$1" in
   C17|C18) exec ./sched.sh "$@" ;;
+  replay) if grep -q '"property": "C1[78]"' "$2" 2>/dev/null; then exec ./sched.sh "$@"; fi ;;
 esac
 exec ./bin/vcheck "$@"
